@@ -605,6 +605,9 @@ type replayCase struct {
 	Part string  `json:"part"`
 	Cfg  config  `json:"cfg"`
 	Hist []event `json:"hist"`
+	// part "sysbytes": where the system-bytes counter was positioned
+	SysStart      uint32 `json:"sys_start,omitempty"`
+	SysPositioned bool   `json:"sys_positioned,omitempty"`
 }
 
 // enumerate visits every history of length <= D in which nothing follows a terminal event
@@ -702,7 +705,7 @@ func TestCheck(t *testing.T) {
 	vfw.Main(t, "C06", func(c *vfw.Ctx) {
 		c.Level("model_checking")
 		c.Rule("Part E2 (tree search): Selected hsmsss connection (passive/active x host/equipment), T3 = 3 s, two registered data handlers, n in {1,2} (thorough {1,2,3}) reply-expected sends S1F(2i+1)W started at the same virtual instant (SendDataMessage, one of them SendSECS2Message; two extra n=1 configurations hold the primary's write back 1.2 s with a closed peer window, so that 'T3 after the primary was written' differs from 'T3 after the call began'), then EVERY peer history of length <= 3 (thorough: n=1 <= 4 full alphabet; n=2 <= 3 full and <= 4 with reject reasons {1,255} (second configuration: the reduced alphabet); n=3 <= 3 full and <= 4 over the reduced alphabet {reply, two replies, W primary, reject(1), Linktest.rsp, cancel} per transaction) over, per open transaction i: reply(i) [S1F(2i+2) W=0 sys_i], two replies in one segment, odd-function W=0 message with sys_i, primary with sys_i (W and non-W), Reject.req(sys_i, reason in {1,2,3,4,5,255}), Select.rsp/Deselect.rsp/Linktest.rsp carrying sys_i, caller-ctx cancel(i); and unsolicited secondary, advance(T3-1ms), advance(2ms), peerClose, Close() (nothing follows peerClose/Close; an implicit Close ends every history). After every event (synctest.Wait) the calls that have returned, their values and virtual return times, the per-handler delivery logs and the frames the library wrote are compared with a reference map of open transactions: exactly one of {the peer's reply frame byte-identical (secondary, own system bytes), *RejectError with the peer's reason, ErrT3Timeout at exactly write+T3, ErrConnClosed, ctx error}, returned exactly when an event completes the transaction, never (nil,nil); every inbound data frame to exactly one recipient (waiting sender XOR every handler once in arrival order; a duplicate of an answered transaction may vanish); library-generated system bytes distinct among open transactions. state = history prefix (a live connection cannot be cloned), non-trivial = history length >= 1")
-		c.Rule("Part E1 (system bytes): one Selected connection, 2^16+10 consecutive SendDataMessage W sends with one transaction held open for the whole run and a sliding window of 3 open ones, interleaved with library Linktest.req (same counter): every system-bytes value read off the wire differs from every open transaction's and from every earlier one")
+		c.Rule("Part E1 (system bytes): one Selected connection, 2^16+10 consecutive SendDataMessage W sends with one transaction held open for the whole run and a sliding window of 3 open ones, interleaved with library Linktest.req (same counter): every system-bytes value read off the wire differs from every open transaction's and from every earlier one; the same for 2000 draws with the counter positioned (build-tag hook hsms.VerifC06SetSysBytes) 300 below 2^24, 2^31 and the 2^32 wrap, and 2 and 1 below the wrap")
 		c.Assume("testing/synctest virtual time and durable-blocking detection", "sim in-memory network", "no exact ties between a frame, a timer and a cancel (T3-1ms / T3+1ms; ties are engine E3's domain: partSched)", "reference = map of open transactions written from the property text; late replies (transaction ended by timeout/cancel/reject) must reach the handlers, duplicates of an answered transaction may vanish or reach them")
 		if c.Replay != nil {
 			var rc replayCase
@@ -714,7 +717,11 @@ func TestCheck(t *testing.T) {
 			case "e2", "":
 				check(c, t, rc.Cfg, rc.Hist)
 			case "sysbytes":
-				checkSysBytes(c, t)
+				if rc.SysPositioned {
+					checkSysBytes(c, t, rc.SysStart, true, sysEdgeDraws)
+				} else {
+					checkSysBytes(c, t, 0, false, sysDraws)
+				}
 			default:
 				partSched(c, t)
 			}
@@ -754,7 +761,7 @@ func partE2(c *vfw.Ctx, t *testing.T) {
 var onLeak func(string)
 
 func check(c *vfw.Ctx, t *testing.T, cfg config, h []event) {
-	rc := replayCase{"e2", cfg, h}
+	rc := replayCase{Part: "e2", Cfg: cfg, Hist: h}
 	onLeak = func(stacks string) {
 		c.Violate("goroutine-leak", "library goroutines alive 2 virtual minutes after Close, history "+histString(h)+" ["+cfg.String()+"]:\n"+stacks[:min(len(stacks), 1500)], rc)
 		c.Abort("goroutine leak wedged the bubble")
